@@ -262,6 +262,8 @@ pub struct FrontendCtx<'a, R: FileManager> {
     pub counter: usize,
 
     pub type_application_stack: Vec<(String, Runtype)>,
+    // how many generic instantiations are being expanded inside one another
+    instantiation_depth: usize,
     jsdoc_cache_by_file: BTreeMap<BffFileName, JsdocFileCache>,
 }
 
@@ -1077,6 +1079,7 @@ impl<'a, R: FileManager> FrontendCtx<'a, R> {
             counter: 0,
 
             type_application_stack: vec![],
+            instantiation_depth: 0,
             recursive_generic_uuids: BTreeSet::new(),
             jsdoc_cache_by_file: BTreeMap::new(),
         }
@@ -2131,9 +2134,22 @@ impl<'a, R: FileManager> FrontendCtx<'a, R> {
             }
             return Ok(Runtype::ref_(rt_uuid));
         }
+        // a generic that instantiates itself at an ever-growing argument (`type L<T> = {n: L<T[]>}`)
+        // has infinitely many distinct instances: give up with a diagnostic, like TypeScript's
+        // "excessively deep" error, instead of expanding them forever
+        if ts_type_args.is_some() && self.instantiation_depth >= 32 {
+            return self.error(
+                anchor,
+                DiagnosticInfoMessage::AnyhowError(
+                    "Type instantiation is excessively deep and possibly infinite".to_string(),
+                ),
+            );
+        }
         self.partial_validators.insert(rt_uuid.clone(), None);
 
+        self.instantiation_depth += 1;
         let ty = self.extract_addressed_type(&fat, type_args, anchor);
+        self.instantiation_depth -= 1;
         match ty {
             Ok(ty) => self.insert_definition(rt_uuid.clone(), ty),
             Err(e) => {
